@@ -32,7 +32,7 @@ def _install():
     install(panqec.bpauli, panqec.bsparse, sc)
 
 
-def explore_stabilizer(code, cfg, col, var='a'):
+def explore_stabilizer(code, cfg, col, var='a', pid='C01'):
     """Paths of the real get_stabilizer on a symbolic location, one exploration per coordinate
     arity: [(avars, base, [(pc, [(key terms, letter)], exc)])]."""
     groups = {}
@@ -68,11 +68,11 @@ def explore_stabilizer(code, cfg, col, var='a'):
                     ent.append((ks, v))
                 ps.append((p.pc, ent, None))
         out.append((avars, list(eng.base), ps, len(coords)))
-        validate_encoding(code, cfg, col, avars, ps, coords)
+        validate_encoding(code, cfg, col, avars, ps, coords, pid=pid)
     return out
 
 
-def validate_encoding(code, cfg, col, avars, ps, coords, cap=20000):
+def validate_encoding(code, cfg, col, avars, ps, coords, cap=20000, pid='C01'):
     """Translation validation of the symbolic exploration: every (or, beyond `cap` substitutions, a
     deterministic sample of) concrete stabilizer location is substituted into the path conditions --
     exactly one path must hold -- and into that path's key terms; the resulting operator must be what the
@@ -110,6 +110,16 @@ def validate_encoding(code, cfg, col, avars, ps, coords, cap=20000):
                 raise HarnessError(f'{cfg}: duplicate key {key} in the canonical symbolic operator at {loc}')
             got[key] = letter
         if got != want:
+            # before blaming the encoding: is the REAL function a function of the location at all?  (a second
+            # call on the same object, and a call on another fresh object, must return the same operator)
+            again = {tuple(int(y) for y in q): p_ for q, p_ in fresh.get_stabilizer(tuple(loc)).items()}
+            other = {tuple(int(y) for y in q): p_ for q, p_ in common.make_code(cfg).get_stabilizer(tuple(loc)).items()}
+            if again != want or other != want:
+                col.record(f'{pid}/get_stabilizer/is-a-function-of-the-location', 'sat', 0, True,
+                           dict(impure=True, a=[int(x) for x in loc]),
+                           f'two calls of the real get_stabilizer at {tuple(loc)} return {want} and {again} '
+                           f'(another fresh object: {other})')
+                return
             raise HarnessError(f'{cfg}: symbolic get_stabilizer at {loc} gives {got}, the real one {want}')
         n_ok += 1
     col.stats['encoding_validated_locations'] = col.stats.get('encoding_validated_locations', 0) + n_ok
@@ -338,6 +348,12 @@ def replay(path):
         if w.get('construct'):
             code.logicals_x, code.logicals_z
             bad = False
+        elif w.get('impure'):
+            a1 = dict(code.get_stabilizer(tuple(w['a'])))
+            a2 = dict(code.get_stabilizer(tuple(w['a'])))
+            a3 = dict(common.make_code(cfg).get_stabilizer(tuple(w['a'])))
+            print('get_stabilizer', tuple(w['a']), '->', a1, '| again ->', a2, '| other object ->', a3)
+            bad = a1 != a2 or a1 != a3
         elif ('a' in w and tuple(w['a']) not in code.stabilizer_index) or \
                 ('b' in w and tuple(w['b']) not in code.stabilizer_index):
             print('witness location is not a stabilizer location: harness model error')
